@@ -482,9 +482,9 @@ func (r *Batcher) Stop() {
 
 	// only allow one phase at a time
 	r.phaseMutex.Lock()
-	defer r.phaseMutex.Unlock()
 	if r.phase == batcherPhaseStopped {
 		// NOTE: there should be no need for callers to handle errors at Stop(), we will just ignore them
+		r.phaseMutex.Unlock()
 		return
 	}
 
@@ -492,9 +492,12 @@ func (r *Batcher) Stop() {
 	if r.stop != nil {
 		close(r.stop)
 	}
-	r.shutdown.Wait()
 
 	// update the phase
 	r.phase = batcherPhaseStopped
+
+	// NOTE: the lock must be released before waiting, the processing loop needs it to resume from a pause
+	r.phaseMutex.Unlock()
+	r.shutdown.Wait()
 
 }
